@@ -154,6 +154,8 @@ def check_case(ref, case):
 
 
 def params(tier):
+    if tier == "c20":
+        return dict(n_closed=1, n_digit=1, n_names=1, search="star-only")
     if tier == "thorough":
         return dict(n_closed=2, n_digit=1, n_names=2)
     return dict(n_closed=1, n_digit=1, n_names=1)
